@@ -8,14 +8,26 @@ idempotent wrap operator.  Nothing is executed: loops are not iterated, the loop
 variable is a symbol.  Equality of two extracted expressions is polynomial identity
 after cross-multiplication (sympy expand), conditionals are compared by a truth table
 over their (canonicalised) atomic comparisons.
+
+AUDIT (soundness of the facts this engine hands to the property files).  The engine itself never
+reports a violation: it hands out FORMULAS (`SymExec.ret`, `.env`, array cells) and VERDICTS of
+comparisons (`alg_equal`, `sym_equal`, `consistent`), which the property files turn into
+HOLDS / VIOLATED.  A formula is a fact about the code only if every construct met on the way
+was modelled; the rule of this file is therefore: a construct that is not modelled raises
+`Undecided` AT THE POINT WHERE IT IS MET (no default branch guesses), and a comparison answers
+False only when the difference is established (see `alg_equal`), None / Undecided otherwise.
+Every site is marked `# AUDIT:` with the assumption and how it is checked.
 """
 from __future__ import annotations
 
 import ast
 import itertools
+import re
 
 import sympy as sp
 from sympy import Function, Symbol, Integer, Rational
+from sympy.logic.boolalg import Boolean, BooleanFunction
+from sympy.core.function import AppliedUndef
 
 from .core import src, AnalysisError
 
@@ -73,6 +85,8 @@ PI = Symbol("pi", positive=True)
 PURE_FUNCS = {"sqrt": sp.sqrt, "exp": sp.exp, "tanh": sp.tanh, "cos": sp.cos, "sin": sp.sin, "floor": sp.floor,
               "real": lambda x: x, "float": lambda x: x, "int": lambda x: Function("toint")(x)}
 
+FMOD = Function("fmod")      # C remainder (sign of the dividend): NOT the `%` of Python
+
 
 def num(c):
     if isinstance(c, bool):
@@ -84,18 +98,65 @@ def num(c):
     raise Undecided(f"constant {c!r}")
 
 
+def _is_bool(x):
+    """certainly a truth value (a Symbol may be either: it is not counted here)"""
+    return isinstance(x, (BooleanFunction, sp.Rel, sp.logic.boolalg.BooleanAtom))
+
+
+def _is_scalar(x):
+    """a sympy NUMBER-valued expression (not a truth value, not an array, not a tuple)"""
+    return isinstance(x, sp.Expr)
+
+
+class Poison:
+    """a name whose value the engine does not know (bound differently on the arms of a conditional ...): reading it is Undecided"""
+
+    def __init__(self, why):
+        self.why = why
+
+
 class Arr:
     """symbolic array: written cells keyed by index tuple; reads of unwritten cells are
-    an uninterpreted function of the indices (or `generic(idx)` when defined)."""
+    an uninterpreted function of the indices (or `generic(idx)` when defined).
+    `rank` (number of axes) and `length` (extent of axis 0) are None when not known."""
 
-    def __init__(self, name, generic=None):
+    def __init__(self, name, generic=None, rank=None):
         self.name = name
         self.cells: dict[tuple, sp.Expr] = {}
         self.generic = generic
         self.fn = Function(name)
+        self.rank = rank
+        self.length = None
+        self.selfupd = set()      # keys of cells whose last store was written as an update of the cell itself (x[k] += e, x[k] = x[k] + e)
+
+    def dim(self, k):
+        if k == 0 and getattr(self, "length", None) is not None:
+            return self.length
+        return Symbol(f"n{k}_{self.name}", integer=True, positive=True)
+
+    def _norm(self, idx):
+        """AUDIT: an index is a tuple of integer-valued scalars, one per axis.  Checked: every component is a sympy number
+        expression (an array / tuple / truth value used as an index is fancy indexing: Undecided); the count equals the rank when
+        the rank is known (fewer = a row view, not an element); a NEGATIVE LITERAL counts from the end: mapped through the
+        extent of its axis (`length` / the symbol n<k>_<name> that `shape` and `len` use)."""
+        idx = tuple(idx)
+        rank = getattr(self, "rank", None)
+        if rank is not None and len(idx) != rank:
+            raise Undecided(f"{self.name} has {rank} axes and is indexed with {len(idx)} indices")
+        out = []
+        for k, i in enumerate(idx):
+            if not _is_scalar(i):
+                raise Undecided(f"index {i!r} of {self.name} is not a scalar")
+            if i.is_Integer and i < 0:
+                i = self.dim(k) + i
+            out.append(i)
+        return tuple(out)
+
+    def initial(self, idx):
+        return self.generic(idx) if self.generic is not None else self.fn(*idx)
 
     def read(self, idx):
-        idx = tuple(idx)
+        idx = self._norm(idx)
         if idx in self.cells:
             return self.cells[idx]
         # a written cell with a different symbolic key might alias: require syntactic disjointness knowledge
@@ -107,16 +168,26 @@ class Arr:
         return self.fn(*idx)
 
     def write(self, idx, val):
-        idx = tuple(idx)
+        idx = self._norm(idx)
+        if not isinstance(val, sp.Basic):
+            raise Undecided(f"store of a non-scalar into {self.name}{list(idx)}")
         for k in list(self.cells):
             if k != idx and len(k) == len(idx) and not _provably_distinct(k, idx):
                 raise Undecided(f"write of {self.name}{list(idx)} may alias written cell {list(k)}")
         self.cells[idx] = val
 
+    def set_all(self, gen):
+        """the whole array is overwritten: element idx becomes gen(idx)"""
+        self.cells = {}
+        self.generic = gen
+        self.selfupd = set()
+
     def copy(self):
-        a = Arr(self.name, self.generic)
+        a = Arr(self.name, self.generic, getattr(self, "rank", None))
         a.cells = dict(self.cells)
         a.fn = self.fn
+        a.length = getattr(self, "length", None)
+        a.selfupd = set(getattr(self, "selfupd", ()))
         return a
 
 
@@ -141,26 +212,159 @@ def _provably_distinct(k1, k2):
 
 
 class Vec:
-    """element-wise lifted whole-array expression: f(index tuple) -> element"""
+    """element-wise lifted whole-array expression: f(index tuple) -> element.
+    rank: number of axes when known (None: not known, the operands are then read with the index as given, and an operand of
+    known rank refuses an index of another length).  frozen(): the same value with every array operand read NOW (a Vec made by
+    arithmetic is a fresh array and is frozen when it is made; a Vec made by slicing is a VIEW and reads its base when it is read)."""
 
-    def __init__(self, f):
+    def __init__(self, f, rank=None, refreeze=None):
         self.f = f
+        self.rank = rank
+        self._refreeze = refreeze
+
+    def frozen(self):
+        return self._refreeze() if self._refreeze is not None else self
 
 
 def _elem(v, ix):
     if isinstance(v, Arr):
         return v.read(list(ix))
     if isinstance(v, Vec):
-        return v.f(ix)
+        return v.f(tuple(ix))
     return v
 
 
+def _is_arr(v):
+    return isinstance(v, (Arr, Vec))
+
+
+def _frozen(v):
+    """value of an array operand at this point of the execution (whole-array arithmetic makes a new array: later stores into the
+    operands do not change it)"""
+    if isinstance(v, Arr):
+        return v.copy()
+    if isinstance(v, Vec):
+        return v.frozen()
+    return v
+
+
+def lift(fn, *ops, what="expression"):
+    """fn applied element-wise.
+    AUDIT: numpy aligns the TRAILING axes of operands of different rank.  When the ranks of all array operands are known the
+    operand of rank r is read at the last r indices; when one is not known all operands are read at the same index (operands
+    whose rank is known then check the number of indices themselves, see Arr._norm).  Extents of 1 are not modelled (kernels do
+    not use them).  Operands that are neither scalars nor arrays (tuples, functions) are Undecided."""
+    if not any(_is_arr(o) for o in ops):
+        for o in ops:
+            if not isinstance(o, sp.Basic):
+                raise Undecided(f"{what} on a value that is neither a scalar nor an array")
+        try:
+            return fn(*ops)
+        except (TypeError, AttributeError, ValueError) as e:
+            raise Undecided(f"{what}: {type(e).__name__}: {e}")
+    for o in ops:
+        if not (_is_arr(o) or isinstance(o, sp.Basic)):
+            raise Undecided(f"{what} on a value that is neither a scalar nor an array")
+    ops = [_frozen(o) for o in ops]
+    ranks = [getattr(o, "rank", None) for o in ops if _is_arr(o)]
+    if all(r is not None for r in ranks):
+        R = max(ranks)
+
+        def f(ix, ops=ops, R=R):
+            if len(ix) != R:
+                raise Undecided(f"{what} of {R} axes read with {len(ix)} indices")
+            vals = [_elem(o, ix[len(ix) - o.rank:]) if _is_arr(o) else o for o in ops]
+            try:
+                return fn(*vals)
+            except (TypeError, AttributeError, ValueError) as e:
+                raise Undecided(f"{what}: {type(e).__name__}: {e}")
+        return Vec(f, R)
+
+    def g(ix, ops=ops):
+        vals = [_elem(o, ix) for o in ops]
+        try:
+            return fn(*vals)
+        except (TypeError, AttributeError, ValueError) as e:
+            raise Undecided(f"{what}: {type(e).__name__}: {e}")
+    return Vec(g, None)
+
+
 class ShapeOf:
-    def __init__(self, arrname):
+    def __init__(self, arrname, arr=None):
         self.name = arrname
+        self.arr = arr
 
     def dim(self, k):
+        if self.arr is not None:
+            rank = getattr(self.arr, "rank", None)
+            if rank is not None and not (-rank <= k < rank):
+                raise Undecided(f"axis {k} of {self.name}, which has {rank} axes")
+            if k < 0:
+                if rank is None:
+                    raise Undecided(f"axis {k} of {self.name} counted from the end")
+                k += rank
+            return self.arr.dim(k)
         return Symbol(f"n{k}_{self.name}", integer=True, positive=True)
+
+
+_FRESH = itertools.count(1)
+
+
+def _bound_vars(e):
+    out = set()
+    if isinstance(e, sp.Basic):
+        for s_ in e.atoms(sp.Sum):
+            for lim in s_.limits:
+                out.add(lim[0])
+    return out
+
+
+def _rename_bound(e, clash):
+    """`e` with every summation variable that is in `clash` renamed to a fresh one"""
+    if not isinstance(e, sp.Basic) or not e.has(sp.Sum):
+        return e
+    if not (_bound_vars(e) & set(clash)):
+        return e
+
+    def ren(x):
+        if isinstance(x, sp.Sum):
+            fnc = ren(x.function)
+            lims = []
+            for lim in x.limits:
+                v = lim[0]
+                rest = tuple(ren(b) for b in lim[1:])
+                if v in clash:
+                    nv = Symbol(f"{v.name}_s{next(_FRESH)}", integer=True)
+                    fnc = fnc.xreplace({v: nv})
+                    v = nv
+                lims.append((v,) + rest)
+            return sp.Sum(fnc, *lims)
+        if not x.args:
+            return x
+        return x.func(*[ren(a) for a in x.args])
+    return ren(e)
+
+
+def safe_subs(expr, mapping):
+    """capture-avoiding substitution: AUDIT: a summation variable of `expr` with the name of a symbol that occurs in the
+    substituted values (a later loop counter of the same name) would capture it; such dummies are renamed first"""
+    if not isinstance(expr, sp.Basic):
+        return expr
+    free_new = set()
+    for v in mapping.values():
+        if isinstance(v, sp.Basic):
+            free_new |= v.free_symbols
+    expr = _rename_bound(expr, free_new)
+    return expr.subs(mapping, simultaneous=True)
+
+
+def make_sum(d, v, lo, hi):
+    """Sum(d, (v, lo, hi - 1)) with inner summation variables of the same name as v renamed"""
+    d = _rename_bound(d, {v})
+    return sp.Sum(d, (v, lo, hi - 1))
+
+
+_MODULE_RECEIVERS = ("np", "numpy", "math", "cmath", "mt", "m")
 
 
 class SymExec:
@@ -183,23 +387,161 @@ class SymExec:
             return num(e.value)
         if isinstance(e, ast.Name):
             if e.id in self.env:
-                return self.env[e.id]
+                v = self.env[e.id]
+                if isinstance(v, Poison):
+                    raise Undecided(f"`{e.id}`: {v.why}")
+                return v
             if e.id == "pi":
                 return PI
             if e.id in self.consts:
                 return self.consts[e.id]
             raise Undecided(f"unknown name `{e.id}`")
         if isinstance(e, ast.BinOp):
+            if not isinstance(e.op, (ast.Add, ast.Sub, ast.Mult, ast.Div, ast.Pow, ast.Mod, ast.FloorDiv, ast.BitAnd, ast.BitOr)):
+                # AUDIT: @ is not element-wise; shifts and ^ are not modelled (refused here, not when an element is read)
+                raise Undecided(f"operator in `{src(e)[:50]}`")
             a, b = self.ev(e.left), self.ev(e.right)
-            if isinstance(a, (Arr, Vec)) or isinstance(b, (Arr, Vec)):
-                node = e
+            node = e
+            return lift(lambda x, y: self.binop(node.op, x, y, node), a, b, what=f"`{src(e)[:40]}`")
+        if isinstance(e, ast.UnaryOp):
+            v = self.ev(e.operand)
+            if isinstance(e.op, ast.USub):
+                return lift(lambda x: self._arith(lambda: -x, e), v, what=f"`{src(e)[:40]}`")
+            if isinstance(e.op, ast.UAdd):
+                return lift(lambda x: self._arith(lambda: +x, e), v, what=f"`{src(e)[:40]}`")
+            if isinstance(e.op, ast.Not):
+                return lift(lambda x: sp.Not(self.truth(x, e)), v, what=f"`{src(e)[:40]}`")
+            # AUDIT: `~x` (bitwise) is not modelled
+            raise Undecided(f"operator in `{src(e)[:50]}`")
+        if isinstance(e, ast.Compare):
+            vals = [self.ev(e.left)] + [self.ev(c) for c in e.comparators]
+            ops = list(e.ops)
 
-                def f(ix, a=a, b=b, node=node):
-                    return self.binop(node.op, _elem(a, ix), _elem(b, ix), node)
-                return Vec(f)
-            return self.binop(e.op, a, b, e)
-        if False:
-            op = e.op
+            def cmp(*xs):
+                parts = [self.rel(op, xs[k], xs[k + 1]) for k, op in enumerate(ops)]
+                return sp.And(*parts) if len(parts) > 1 else parts[0]
+            return lift(cmp, *vals, what=f"`{src(e)[:40]}`")
+        if isinstance(e, ast.BoolOp):
+            vals = [self.ev(v) for v in e.values]
+            is_and = isinstance(e.op, ast.And)
+            # AUDIT: `a and b` is the conjunction only for truth values (on numbers it returns one of the operands)
+            return lift(lambda *xs: (sp.And if is_and else sp.Or)(*[self.truth(x, e, strict=True) for x in xs]), *vals,
+                        what=f"`{src(e)[:40]}`")
+        if isinstance(e, ast.Subscript):
+            return self.subscript(e)
+        if isinstance(e, ast.Attribute):
+            base = e.value
+            if isinstance(base, ast.Name) and base.id in self.env and isinstance(self.env[base.id], Arr) and e.attr == "shape":
+                a = self.env[base.id]
+                return ShapeOf(a.name, a)
+            if isinstance(base, ast.Name) and base.id in self.env and isinstance(self.env[base.id], Arr) and e.attr == "size" \
+                    and getattr(self.env[base.id], "rank", None) == 1:
+                return self.env[base.id].dim(0)
+            if isinstance(base, ast.Name) and base.id in ("np", "numpy", "math") and base.id not in self.env and e.attr == "pi":
+                return PI
+            raise Undecided(f"attribute `{src(e)[:50]}`")
+        if isinstance(e, ast.Call):
+            return self.call(e)
+        if isinstance(e, ast.Tuple):
+            if any(isinstance(x, ast.Starred) for x in e.elts):
+                raise Undecided(f"starred element in `{src(e)[:40]}`")
+            return tuple(self.ev(x) for x in e.elts)
+        if isinstance(e, ast.IfExp):
+            c, a, b = self.ev(e.test), self.ev(e.body), self.ev(e.orelse)
+            return lift(lambda c_, a_, b_: ITE(self.truth(c_, e), a_, b_), c, a, b, what=f"`{src(e)[:40]}`")
+        # AUDIT: lambda, comprehensions, generators, walrus, starred, f-strings, dict/set/list displays, await/yield: not modelled
+        raise Undecided(f"expression kind `{src(e)[:50]}`")
+
+    def truth(self, x, e=None, strict=False):
+        """x as a condition.  AUDIT: a truth value or a Boolean-armed conditional is itself; a Symbol is a flag (its truth value is
+        one free atom, the same wherever the symbol occurs); a NUMBER expression used as a condition means `!= 0` (not for the
+        operands of and/or, whose VALUE is an operand); arrays / tuples: Undecided"""
+        if _is_bool(x) or isinstance(x, Symbol):
+            return x
+        if isinstance(x, ITE) and _boolean_ite(x):
+            return x
+        if isinstance(x, sp.Expr) and not strict:
+            return sp.Ne(x, 0)
+        raise Undecided(f"`{src(e)[:40] if e is not None else x}` used as a truth value")
+
+    def _arith(self, thunk, e):
+        try:
+            return thunk()
+        except (TypeError, AttributeError, ValueError) as ex_:
+            raise Undecided(f"arithmetic in `{src(e)[:40]}`: {type(ex_).__name__}")
+
+    def subscript(self, e):
+        base = self.ev(e.value)
+        if isinstance(base, Arr):
+            items = e.slice.elts if isinstance(e.slice, ast.Tuple) else [e.slice]
+            if any(isinstance(x, ast.Slice) for x in items):
+                rank = getattr(base, "rank", None)
+                if rank is not None and len(items) != rank:
+                    raise Undecided(f"`{src(e)[:40]}`: {len(items)} subscripts for {rank} axes")
+                lows = []
+                for ax, x in enumerate(items):
+                    if isinstance(x, ast.Slice):
+                        if x.step is not None:
+                            raise Undecided("strided slice")
+                        lo = self.ev(x.lower) if x.lower is not None else Integer(0)
+                        if not _is_scalar(lo):
+                            raise Undecided(f"slice bound in `{src(e)[:40]}`")
+                        if lo.is_Integer and lo < 0:
+                            lo = base.dim(ax) + lo      # AUDIT: a negative literal bound counts from the end
+                        # AUDIT: the upper bound only limits the extent, which this model does not track
+                        lows.append(("s", lo))
+                    else:
+                        v = self.ev(x)
+                        if not _is_scalar(v):
+                            raise Undecided(f"index in `{src(e)[:40]}`")
+                        lows.append(("i", v))
+                nsl = sum(1 for k_, _ in lows if k_ == "s")
+
+                def build(b, lows=lows, nsl=nsl):
+                    def f(ix, b=b):
+                        if len(ix) != nsl:
+                            raise Undecided(f"view of {nsl} axes read with {len(ix)} indices")
+                        out, k = [], 0
+                        for kind, lo in lows:
+                            if kind == "s":
+                                out.append(lo + ix[k])
+                                k += 1
+                            else:
+                                out.append(lo)
+                        return b.read(out)
+                    return f
+                # a VIEW: reads the base when it is read; frozen() reads a copy of the base taken at that moment
+                return Vec(build(base), nsl, refreeze=lambda base=base, build=build, nsl=nsl: Vec(build(base.copy()), nsl))
+            idx = self.index(e.slice)
+            return base.read(idx)
+        if isinstance(base, (tuple, list)):
+            i = self.ev(e.slice) if not isinstance(e.slice, (ast.Slice, ast.Tuple)) else None
+            if isinstance(i, sp.Basic) and i.is_Integer and -len(base) <= int(i) < len(base):
+                return base[int(i)]
+        if isinstance(base, ShapeOf):
+            i = self.ev(e.slice) if not isinstance(e.slice, (ast.Slice, ast.Tuple)) else None
+            if isinstance(i, sp.Basic) and i.is_Integer:
+                return base.dim(int(i))
+        if isinstance(base, Vec):
+            if isinstance(e.slice, ast.Slice) or (isinstance(e.slice, ast.Tuple) and any(isinstance(x, ast.Slice) for x in e.slice.elts)):
+                raise Undecided(f"slice of a whole-array value `{src(e)[:40]}`")
+            idx = tuple(self.index(e.slice))
+            if base.rank is not None and len(idx) != base.rank:
+                raise Undecided(f"`{src(e)[:40]}`: {len(idx)} indices for {base.rank} axes")
+            return base.f(idx)
+        raise Undecided(f"subscript `{src(e)[:50]}`")
+
+    def binop(self, op, a, b, e):
+        # AUDIT: arithmetic is defined on number expressions only (truth values, tuples, arrays: Undecided; arrays are lifted by ev)
+        if not (isinstance(a, sp.Basic) and isinstance(b, sp.Basic)):
+            raise Undecided(f"operands of `{src(e)[:50]}`")
+        if isinstance(op, (ast.BitAnd, ast.BitOr)) and (_is_bool(a) or _is_bool(b)):
+            if (_is_bool(a) or isinstance(a, Symbol)) and (_is_bool(b) or isinstance(b, Symbol)):
+                return (sp.And if isinstance(op, ast.BitAnd) else sp.Or)(a, b)
+            raise Undecided(f"operator in `{src(e)[:50]}`")
+        if _is_bool(a) or _is_bool(b):
+            raise Undecided(f"arithmetic on a truth value in `{src(e)[:50]}`")
+        try:
             if isinstance(op, ast.Add):
                 return a + b
             if isinstance(op, ast.Sub):
@@ -216,99 +558,15 @@ class SymExec:
                 return Function("mod")(a, b)
             if isinstance(op, ast.FloorDiv):
                 return sp.floor(a / b)
-            raise Undecided(f"operator in `{src(e)[:50]}`")
-        if isinstance(e, ast.UnaryOp):
-            v = self.ev(e.operand)
-            if isinstance(e.op, ast.USub):
-                return -v
-            if isinstance(e.op, ast.UAdd):
-                return v
-            if isinstance(e.op, ast.Not):
-                return sp.Not(v)
-        if isinstance(e, ast.Compare):
-            parts = []
-            left = self.ev(e.left)
-            for op, c in zip(e.ops, e.comparators):
-                right = self.ev(c)
-                parts.append(self.rel(op, left, right))
-                left = right
-            return sp.And(*parts) if len(parts) > 1 else parts[0]
-        if isinstance(e, ast.BoolOp):
-            vals = [self.ev(v) for v in e.values]
-            return sp.And(*vals) if isinstance(e.op, ast.And) else sp.Or(*vals)
-        if isinstance(e, ast.Subscript):
-            base = self.ev(e.value)
-            if isinstance(base, Arr):
-                items = e.slice.elts if isinstance(e.slice, ast.Tuple) else [e.slice]
-                if any(isinstance(x, ast.Slice) for x in items):
-                    lows = []
-                    for x in items:
-                        if isinstance(x, ast.Slice):
-                            if x.step is not None:
-                                raise Undecided("strided slice")
-                            lows.append(("s", self.ev(x.lower) if x.lower is not None else Integer(0)))
-                        else:
-                            lows.append(("i", self.ev(x)))
-
-                    def f(ix, base=base, lows=lows):
-                        out, k = [], 0
-                        for kind, lo in lows:
-                            if kind == "s":
-                                out.append(lo + ix[k])
-                                k += 1
-                            else:
-                                out.append(lo)
-                        return base.read(out)
-                    return Vec(f)
-                idx = self.index(e.slice)
-                return base.read(idx)
-            if isinstance(base, (tuple, list)):
-                i = self.ev(e.slice)
-                if i.is_Integer:
-                    return base[int(i)]
-            if isinstance(base, ShapeOf):
-                i = self.ev(e.slice)
-                if i.is_Integer:
-                    return base.dim(int(i))
-            if isinstance(base, Vec):
-                return base.f(tuple(self.index(e.slice)))
-            raise Undecided(f"subscript `{src(e)[:50]}`")
-        if isinstance(e, ast.Attribute):
-            base = e.value
-            if isinstance(base, ast.Name) and base.id in self.env and isinstance(self.env[base.id], Arr) and e.attr == "shape":
-                a = self.env[base.id]
-                return ShapeOf(a.name)
-            if isinstance(base, ast.Name) and base.id in ("np", "numpy", "math") and e.attr == "pi":
-                return PI
-            raise Undecided(f"attribute `{src(e)[:50]}`")
-        if isinstance(e, ast.Call):
-            return self.call(e)
-        if isinstance(e, ast.Tuple):
-            return tuple(self.ev(x) for x in e.elts)
-        if isinstance(e, ast.IfExp):
-            return ITE(self.ev(e.test), self.ev(e.body), self.ev(e.orelse))
-        raise Undecided(f"expression kind `{src(e)[:50]}`")
-
-    def binop(self, op, a, b, e):
-        if isinstance(op, ast.Add):
-            return a + b
-        if isinstance(op, ast.Sub):
-            return a - b
-        if isinstance(op, ast.Mult):
-            return a * b
-        if isinstance(op, ast.Div):
-            return a / b
-        if isinstance(op, ast.Pow):
-            return a ** b
-        if isinstance(op, ast.Mod):
-            if sp.simplify(b - 2 * PI) == 0:
-                return Wrap(a)
-            return Function("mod")(a, b)
-        if isinstance(op, ast.FloorDiv):
-            return sp.floor(a / b)
+        except (TypeError, AttributeError, ValueError) as ex_:
+            raise Undecided(f"arithmetic in `{src(e)[:40]}`: {type(ex_).__name__}")
+        # AUDIT: @, <<, >>, ^, & and | on numbers are not modelled
         raise Undecided(f"operator in `{src(e)[:50]}`")
 
     def rel(self, op, a, b):
+        if not (_is_scalar(a) and _is_scalar(b)):
+            # == / != of truth values: not a comparison of numbers
+            raise Undecided("comparison of values that are not numbers")
         if isinstance(op, ast.Lt):
             return sp.Lt(a, b)
         if isinstance(op, ast.LtE):
@@ -324,9 +582,79 @@ class SymExec:
         raise Undecided("comparison operator")
 
     def index(self, s):
-        if isinstance(s, ast.Tuple):
-            return [self.ev(x) for x in s.elts]
-        return [self.ev(s)]
+        items = s.elts if isinstance(s, ast.Tuple) else [s]
+        out = []
+        for x in items:
+            if isinstance(x, (ast.Slice, ast.Starred)):
+                raise Undecided("slice where an index is expected")
+            v = self.ev(x)
+            if not _is_scalar(v):
+                # AUDIT: an array / tuple / truth value as an index is fancy indexing, not an element
+                raise Undecided(f"index `{src(x)[:30]}` is not a scalar")
+            out.append(v)
+        return out
+
+    # ------------------------------------------------------------ calls
+    def _plain_args(self, e, n=None, lo=None):
+        """positional actuals of a call without keywords / star-expansion"""
+        if e.keywords or any(isinstance(a, ast.Starred) for a in e.args):
+            raise Undecided(f"keyword or star-expanded arguments in `{src(e)[:60]}`")
+        if n is not None and len(e.args) != n:
+            raise Undecided(f"`{src(e)[:60]}`: {len(e.args)} arguments")
+        if lo is not None and len(e.args) < lo:
+            raise Undecided(f"`{src(e)[:60]}`: {len(e.args)} arguments")
+        return [self.ev(a) for a in e.args]
+
+    def _library_callee(self, f):
+        """AUDIT: a call is read as the library function of that NAME only when it is written `name(...)` or `<module>.name(...)`
+        with a receiver that is not a local value (a method of an object or of an array is another function)"""
+        if isinstance(f, ast.Name):
+            return f.id not in self.env
+        if isinstance(f, ast.Attribute) and isinstance(f.value, ast.Name):
+            return f.value.id not in self.env
+        return False
+
+    def inline(self, callee, e):
+        """AUDIT (binding of actuals to formals, as Python does it): positional actuals to the positional formals in order, keywords
+        to the formal of that NAME (a keyword that is not a formal, a formal bound twice, a missing formal, *args / **kwargs on either
+        side: Undecided); defaults are evaluated only when they are literals (a default is evaluated in the callee's module)"""
+        A = callee.args
+        if A.vararg is not None or A.kwarg is not None:
+            raise Undecided(f"`{callee.name}` takes *args / **kwargs")
+        if any(isinstance(a_, ast.Starred) for a_ in e.args) or any(k_.arg is None for k_ in e.keywords):
+            raise Undecided(f"star-expanded arguments in `{src(e)[:60]}`")
+        pos = [a.arg for a in list(getattr(A, "posonlyargs", [])) + list(A.args)]
+        posonly = {a.arg for a in getattr(A, "posonlyargs", [])}
+        kwonly = [a.arg for a in A.kwonlyargs]
+        if len(e.args) > len(pos):
+            raise Undecided(f"`{src(e)[:60]}`: {len(e.args)} positional arguments for {len(pos)} parameters")
+        bound = {}
+        for p_, a_ in zip(pos, e.args):
+            bound[p_] = self.ev(a_)
+        for k_ in e.keywords:
+            if k_.arg in bound or k_.arg in posonly or k_.arg not in pos + kwonly:
+                raise Undecided(f"`{src(e)[:60]}`: keyword `{k_.arg}` does not name a free parameter of `{callee.name}`")
+            bound[k_.arg] = self.ev(k_.value)
+        defaults = dict(zip(pos[len(pos) - len(A.defaults):], A.defaults))
+        defaults.update({n_: d_ for n_, d_ in zip(kwonly, A.kw_defaults) if d_ is not None})
+        for p_ in pos + kwonly:
+            if p_ in bound:
+                continue
+            d_ = defaults.get(p_)
+            if d_ is None:
+                raise Undecided(f"`{src(e)[:60]}`: no argument for `{p_}`")
+            if isinstance(d_, ast.Constant) and not isinstance(d_.value, (str, bytes, type(None), type(Ellipsis))):
+                bound[p_] = num(d_.value)
+            elif isinstance(d_, ast.UnaryOp) and isinstance(d_.op, ast.USub) and isinstance(d_.operand, ast.Constant) \
+                    and isinstance(d_.operand.value, (int, float)):
+                bound[p_] = -num(d_.operand.value)
+            else:
+                raise Undecided(f"default of `{p_}` of `{callee.name}` is not a number literal")
+        sub = SymExec(callee, bound, self.calls, self.consts)
+        sub.module_funcs = self.module_funcs
+        sub.depth = self.depth + 1
+        sub.run()
+        return sub.ret if sub.ret is not None else sp.S.NaN
 
     def call(self, e: ast.Call):
         f = e.func
@@ -336,46 +664,127 @@ class SymExec:
         # function-valued parameter bound in env
         if isinstance(f, ast.Name) and f.id in self.env and callable(self.env[f.id]):
             return self.env[f.id](self, e)
-        if isinstance(f, ast.Name) and f.id in self.module_funcs and self.depth < 4:
-            callee = self.module_funcs[f.id]
-            params = [a.arg for a in callee.args.args]
-            bound = {}
-            for p_, a_ in zip(params, e.args):
-                bound[p_] = self.ev(a_)
-            for k_ in e.keywords:
-                bound[k_.arg] = self.ev(k_.value)
-            nd = len(callee.args.defaults)
-            for p_, d_ in zip(params[len(params) - nd:], callee.args.defaults):
-                if p_ not in bound:
-                    bound[p_] = self.ev(d_)
-            sub = SymExec(callee, bound, self.calls, self.consts)
-            sub.module_funcs = self.module_funcs
-            sub.depth = self.depth + 1
-            sub.run()
-            return sub.ret if sub.ret is not None else sp.S.NaN
+        if isinstance(f, ast.Name) and f.id in self.module_funcs:
+            if self.depth >= 4:
+                raise Undecided(f"call `{src(e)[:60]}`: helper functions nested too deeply")
+            return self.inline(self.module_funcs[f.id], e)
+        # methods of an array value
+        if isinstance(f, ast.Attribute) and isinstance(f.value, ast.Name) and isinstance(self.env.get(f.value.id), Arr):
+            arr = self.env[f.value.id]
+            if f.attr == "fill":
+                (c,) = self._plain_args(e, n=1)
+                if not _is_scalar(c):
+                    raise Undecided(f"call `{src(e)[:60]}`")
+                arr.set_all(lambda ix, c=c: c)
+                return sp.S.NaN
+            if f.attr == "copy" and not e.args and not e.keywords:
+                return arr.copy()
+            raise Undecided(f"method call `{src(e)[:60]}`")
+        if not self._library_callee(f):
+            raise Undecided(f"call `{src(e)[:60]}`")
         if name in PURE_FUNCS:
-            args = [self.ev(a) for a in e.args]
-            return PURE_FUNCS[name](*args)
-        if name in ("abs", "np_abs", "fabs"):
-            return sp.Abs(self.ev(e.args[0]))
+            args = self._plain_args(e, n=1)
+            return lift(PURE_FUNCS[name], *args, what=f"`{src(e)[:40]}`")
+        if name in ("abs", "np_abs", "fabs", "absolute"):
+            args = self._plain_args(e, n=1)
+            return lift(sp.Abs, *args, what=f"`{src(e)[:40]}`")
         if name == "len":
-            a = self.ev(e.args[0])
+            (a,) = self._plain_args(e, n=1)
             if isinstance(a, Arr):
-                return getattr(a, "length", None) or Symbol(f"n0_{a.name}", integer=True, positive=True)
+                return a.dim(0)
             if isinstance(a, (tuple, list)):
                 return Integer(len(a))
-        if name in ("empty", "zeros", "empty_like", "ones"):
-            a_ = Arr(f"tmp{e.lineno}")
-            # a one-dimensional scratch array of known length: enumerate()/len() use that length
-            if name != "empty_like" and e.args:
-                try:
-                    n_ = self.ev(e.args[0])
-                    if isinstance(n_, sp.Expr):
-                        a_.length = n_
-                except Undecided:
-                    pass
-            return a_
+            raise Undecided(f"call `{src(e)[:60]}`")
+        if name in ("empty", "zeros", "ones", "full", "empty_like", "zeros_like", "ones_like", "full_like"):
+            return self.alloc(name, e)
+        if name in ("max", "min", "maximum", "minimum", "fmax", "fmin"):
+            # AUDIT: builtin max/min fold any number of SCALAR operands; numpy's take exactly two (a third positional is `out`); one
+            # operand is a reduction over an iterable: not modelled.  max(a, b) = b if b > a else a (the convention of C12)
+            builtin = name in ("max", "min")
+            args = self._plain_args(e, lo=2)
+            if len(args) > 2 and not builtin:
+                raise Undecided(f"call `{src(e)[:60]}`")
+            if builtin and any(_is_arr(a) for a in args):
+                raise Undecided(f"call `{src(e)[:60]}` on arrays")
+            gt = name in ("max", "maximum", "fmax")
+
+            def fold(*xs):
+                out = xs[0]
+                for b in xs[1:]:
+                    if not (_is_scalar(b) and _is_scalar(out)):
+                        raise Undecided("max/min of values that are not numbers")
+                    out = ITE(sp.Gt(b, out) if gt else sp.Lt(b, out), b, out)
+                return out
+            return lift(fold, *args, what=f"`{src(e)[:40]}`")
+        if name in ("mod", "remainder"):
+            a, b = self._plain_args(e, n=2)
+            return lift(lambda x, y: self.binop(ast.Mod(), x, y, e), a, b, what=f"`{src(e)[:40]}`")
+        if name == "fmod":
+            a, b = self._plain_args(e, n=2)
+            return lift(lambda x, y: FMOD(x, y), a, b, what=f"`{src(e)[:40]}`")
+        # AUDIT: every other call (tensordot, dot, sum, prod, where, roll, print, methods ...) may compute or modify anything
         raise Undecided(f"call `{src(e)[:60]}`")
+
+    def alloc(self, name, e):
+        """AUDIT: np.zeros / ones / full make an array of KNOWN content, empty / empty_like of unknown content; the rank is the
+        length of the shape tuple (1 for a scalar shape), for *_like that of the model array; dtype / order keywords do not change
+        the values"""
+        if any(isinstance(a, ast.Starred) for a in e.args) or any(k.arg not in ("dtype", "order", "shape", "fill_value") for k in e.keywords):
+            raise Undecided(f"call `{src(e)[:60]}`")
+        kw = {k.arg: k.value for k in e.keywords}
+        pos = list(e.args)
+        a_ = Arr(f"tmp{e.lineno}")
+        like = name.endswith("_like")
+        if like:
+            if not pos:
+                raise Undecided(f"call `{src(e)[:60]}`")
+            m = self.ev(pos[0])
+            if isinstance(m, Arr):
+                a_.rank, a_.length = getattr(m, "rank", None), getattr(m, "length", None)
+                if a_.length is None:
+                    a_.length = m.dim(0)
+            elif isinstance(m, Vec):
+                a_.rank = m.rank
+            else:
+                raise Undecided(f"call `{src(e)[:60]}`")
+            rest = pos[1:]
+        else:
+            shp = pos[0] if pos else kw.get("shape")
+            if shp is None:
+                raise Undecided(f"call `{src(e)[:60]}`")
+            # a one-dimensional scratch array of known length: enumerate()/len() use that length
+            try:
+                n_ = self.ev(shp)
+            except Undecided:
+                n_ = None
+            if isinstance(n_, ShapeOf) and n_.arr is not None:
+                a_.rank = getattr(n_.arr, "rank", None)
+                a_.length = n_.arr.dim(0)
+            elif isinstance(n_, (tuple, list)):
+                a_.rank = len(n_)
+                if n_ and _is_scalar(n_[0]):
+                    a_.length = n_[0]
+            elif _is_scalar(n_):
+                a_.rank = 1
+                a_.length = n_
+            rest = pos[1:]
+        base = name[:-5] if like else name
+        if base == "zeros":
+            a_.generic = lambda ix: Integer(0)
+        elif base == "ones":
+            a_.generic = lambda ix: Integer(1)
+        elif base == "full":
+            fv = rest[0] if rest else kw.get("fill_value")
+            if fv is None:
+                raise Undecided(f"call `{src(e)[:60]}`")
+            c = self.ev(fv)
+            if not _is_scalar(c):
+                raise Undecided(f"call `{src(e)[:60]}`")
+            a_.generic = lambda ix, c=c: c
+            rest = rest[1:]
+        if rest and not all(isinstance(r_, (ast.Name, ast.Attribute, ast.Constant)) for r_ in rest):
+            raise Undecided(f"call `{src(e)[:60]}`")
+        return a_
 
     # ------------------------------------------------------------ statements
     def run(self):
@@ -390,12 +799,14 @@ class SymExec:
 
     def stmt(self, st):
         if isinstance(st, ast.Expr):
-            if isinstance(st.value, ast.Constant):
+            v = st.value
+            if isinstance(v, (ast.Constant, ast.Name, ast.Attribute)):
+                return                   # docstring / a bare name: no effect
+            if isinstance(v, ast.Call):
+                self.call(v)
                 return
-            if isinstance(st.value, ast.Call):
-                self.call(st.value)
-                return
-            return
+            # AUDIT: yield / await / walrus as a statement have effects: not modelled
+            raise Undecided(f"expression statement `{src(st)[:50]}`")
         if isinstance(st, (ast.Import, ast.ImportFrom, ast.Pass)):
             if isinstance(st, ast.ImportFrom):
                 for a in st.names:
@@ -405,26 +816,36 @@ class SymExec:
         if isinstance(st, ast.Assign):
             val = self.ev(st.value)
             for t in st.targets:
-                self.assign(t, val)
+                self.assign(t, val, value_node=st.value)
+            return
+        if isinstance(st, ast.AnnAssign):
+            if st.value is None:
+                return
+            if not isinstance(st.target, ast.Name):
+                raise Undecided(f"annotated assignment `{src(st)[:50]}`")
+            self.assign(st.target, self.ev(st.value), value_node=st.value)
             return
         if isinstance(st, ast.AugAssign):
             cur = self.ev(st.target)
             v = self.ev(st.value)
-            op = st.op
-            if isinstance(op, ast.Add):
-                new = cur + v
-            elif isinstance(op, ast.Sub):
-                new = cur - v
-            elif isinstance(op, ast.Mult):
-                new = cur * v
-            elif isinstance(op, ast.Div):
-                new = cur / v
-            else:
+            if not isinstance(st.op, (ast.Add, ast.Sub, ast.Mult, ast.Div)):
                 raise Undecided(f"augmented operator in `{src(st)[:50]}`")
-            self.assign(st.target, new)
+            new = lift(lambda x, y: self.binop(st.op, x, y, st), cur, v, what=f"`{src(st)[:40]}`")
+            if isinstance(st.target, ast.Name) and isinstance(cur, Arr):
+                # AUDIT: `a += b` on an array updates the array IN PLACE (every alias sees it)
+                if not isinstance(new, Vec):
+                    raise Undecided(f"`{src(st)[:50]}`")
+                cur.set_all(lambda ix, new=new: _elem(new, ix))
+                return
+            if isinstance(st.target, ast.Name) and isinstance(cur, Vec):
+                raise Undecided(f"in-place update of a view `{src(st)[:50]}`")
+            self.assign(st.target, new, self_update=True)
             return
         if isinstance(st, ast.If):
             c = self.ev(st.test)
+            if _is_arr(c) or not isinstance(c, sp.Basic):
+                raise Undecided(f"condition `{src(st.test)[:40]}` is not a scalar")
+            c = self.truth(c, st.test)
             if c is sp.true or c == True:  # noqa: E712
                 self.block(st.body)
                 return
@@ -444,71 +865,141 @@ class SymExec:
             if ra is not None or rb is not None:
                 if ra is None or rb is None:
                     raise Undecided("return on one arm of a conditional only")
-                self.ret = ITE(c, ra, rb)
+                def _tup(x):
+                    return isinstance(x, (tuple, sp.Tuple)) and all(isinstance(y, sp.Basic) for y in x)
+                if not (isinstance(ra, sp.Basic) and isinstance(rb, sp.Basic)):
+                    if ra is rb:
+                        self.ret = ra
+                    elif (_tup(ra) or isinstance(ra, sp.Basic)) and (_tup(rb) or isinstance(rb, sp.Basic)) \
+                            and (not (_tup(ra) and _tup(rb)) or len(ra) == len(rb)):
+                        # several values returned together: one conditional over the tuple (as the callers read it)
+                        self.ret = ITE(c, sp.Tuple(*ra) if isinstance(ra, tuple) else ra, sp.Tuple(*rb) if isinstance(rb, tuple) else rb)
+                    else:
+                        raise Undecided("conditional return of values that are not scalars")
+                else:
+                    self.ret = ITE(c, ra, rb)
             return
         if isinstance(st, ast.For):
+            if st.orelse:
+                # AUDIT: the else suite runs when the loop was not left by break: not modelled
+                raise Undecided(f"for/else at line {st.lineno}")
             self.loop(st)
             self.generalise()
             return
         if isinstance(st, ast.While):
+            if st.orelse:
+                raise Undecided(f"while/else at line {st.lineno}")
             self.while_(st)
             return
         if isinstance(st, ast.Return):
+            if self.loop_vars:
+                # AUDIT: a return inside a loop ends the loop early (a search): the iterations are not independent
+                raise Undecided(f"return inside a loop at line {st.lineno}")
             self.ret = self.ev(st.value) if st.value is not None else sp.S.NaN
             return
         if isinstance(st, ast.Assert):
             return
+        # AUDIT: break / continue outside the lowered forms, with, try, raise, del, global, nonlocal, match, nested def / class
         raise Undecided(f"statement kind `{src(st)[:50]}`")
 
-    def assign(self, t, val):
+    def assign(self, t, val, value_node=None, self_update=False):
         if isinstance(t, ast.Name):
+            if isinstance(val, Vec):
+                pass        # a view stays a view; an arithmetic result is already frozen
             self.env[t.id] = val
         elif isinstance(t, ast.Subscript):
             base = self.ev(t.value)
             if not isinstance(base, Arr):
                 raise Undecided(f"store into `{src(t)[:40]}`")
-            if isinstance(t.slice, ast.Slice) and t.slice.lower is None and t.slice.upper is None and isinstance(val, (Vec, Arr)):
-                v = val
-                base.cells = {}
-                base.generic = (lambda ix, v=v: _elem(v, ix))
-                return
-            if isinstance(t.slice, ast.Tuple) and all(isinstance(x, ast.Slice) and x.lower is None and x.upper is None
-                                                       for x in t.slice.elts) and isinstance(val, (Vec, Arr)):
-                v = val
-                base.cells = {}
-                base.generic = (lambda ix, v=v: _elem(v, ix))
-                return
-            if isinstance(t.slice, ast.Slice) or (isinstance(t.slice, ast.Tuple) and any(isinstance(x, ast.Slice) for x in t.slice.elts)):
+            items = t.slice.elts if isinstance(t.slice, ast.Tuple) else [t.slice]
+            full = all(isinstance(x, ast.Slice) and x.lower is None and x.upper is None and x.step is None for x in items)
+            if full:
+                rank = getattr(base, "rank", None)
+                if rank is not None and len(items) != rank:
+                    raise Undecided(f"`{src(t)[:40]}`: {len(items)} subscripts for {rank} axes")
+                if isinstance(val, (Vec, Arr)):
+                    # AUDIT: the right-hand side is COPIED now: later stores into its operands do not change the target
+                    v = _frozen(val)
+                    vr = getattr(v, "rank", None)
+                    n = len(items)
+
+                    def gen(ix, v=v, vr=vr, n=n):
+                        # a source of lower (known) rank is broadcast along the leading axes
+                        if vr is not None and len(ix) >= vr:
+                            return _elem(v, ix[len(ix) - vr:])
+                        return _elem(v, ix)
+                    base.set_all(gen)
+                    return
+                if _is_scalar(val):
+                    # A[:, :] = c
+                    base.set_all(lambda ix, c=val: c)
+                    return
                 raise Undecided(f"slice store `{src(t)[:40]}`")
-            base.write(self.index(t.slice), val)
-        elif isinstance(t, ast.Tuple):
+            if any(isinstance(x, ast.Slice) for x in items):
+                raise Undecided(f"slice store `{src(t)[:40]}`")
+            idx = self.index(t.slice)
+            if not isinstance(val, sp.Basic):
+                raise Undecided(f"store of a non-scalar into `{src(t)[:40]}`")
+            base.write(idx, val)
+            key = base._norm(idx)
+            if self_update or (value_node is not None and any(isinstance(n_, ast.Subscript) and src(n_) == src(t)
+                                                              for n_ in ast.walk(value_node))):
+                base.selfupd.add(key)
+            else:
+                base.selfupd.discard(key)
+        elif isinstance(t, (ast.Tuple, ast.List)):
+            if any(isinstance(x, ast.Starred) for x in t.elts):
+                raise Undecided("starred assignment target")
             if isinstance(val, ShapeOf):
+                rank = getattr(val.arr, "rank", None) if val.arr is not None else None
+                if rank is not None and rank != len(t.elts):
+                    raise Undecided("tuple assignment of a shape of another rank")
                 val = tuple(val.dim(k) for k in range(len(t.elts)))
             if not isinstance(val, (tuple, list)) or len(val) != len(t.elts):
                 raise Undecided("tuple assignment")
             for e, v in zip(t.elts, val):
                 self.assign(e, v)
         else:
+            # AUDIT: attribute targets, starred targets: not modelled
             raise Undecided(f"assignment target `{src(t)[:40]}`")
 
     def snapshot(self):
-        env = {}
+        env, memo = {}, {}
         for k, v in self.env.items():
-            env[k] = v.copy() if isinstance(v, Arr) else v
+            if isinstance(v, Arr):
+                # two names of one array stay two names of one array
+                if id(v) not in memo:
+                    memo[id(v)] = v.copy()
+                env[k] = memo[id(v)]
+            else:
+                env[k] = v
         return env
 
     def restore(self, snap):
-        self.env = {}
+        self.env, memo = {}, {}
         for k, v in snap.items():
-            self.env[k] = v.copy() if isinstance(v, Arr) else v
+            if isinstance(v, Arr):
+                if id(v) not in memo:
+                    memo[id(v)] = v.copy()
+                self.env[k] = memo[id(v)]
+            else:
+                self.env[k] = v
 
     def merge(self, c, a, b):
         out = {}
+        done = {}
         for k in set(a) | set(b):
             va, vb = a.get(k), b.get(k)
             if isinstance(va, Arr) or isinstance(vb, Arr):
                 if not (isinstance(va, Arr) and isinstance(vb, Arr)):
-                    out[k] = va if isinstance(va, Arr) else vb
+                    if va is None or vb is None:
+                        out[k] = va if isinstance(va, Arr) else vb       # defined on one arm only
+                    else:
+                        # AUDIT: an array on one arm and another kind of value on the other
+                        out[k] = Poison("bound to an array on one arm of a conditional and to something else on the other")
+                    continue
+                if (id(va), id(vb)) in done:
+                    out[k] = done[(id(va), id(vb))]
                     continue
                 m = va.copy()
                 if va.generic is not vb.generic:
@@ -518,57 +1009,257 @@ class SymExec:
                     def gen(ix, ga=ga, gb=gb, c=c):
                         return ITE(c, ga(ix), gb(ix))
                     m.generic = gen
+                if getattr(va, "rank", None) != getattr(vb, "rank", None):
+                    m.rank = None
+                if getattr(va, "length", None) != getattr(vb, "length", None):
+                    m.length = None
                 for idx in set(va.cells) | set(vb.cells):
                     xa = va.cells[idx] if idx in va.cells else (va.generic(idx) if va.generic else va.fn(*idx))
                     xb = vb.cells[idx] if idx in vb.cells else (vb.generic(idx) if vb.generic else vb.fn(*idx))
                     m.cells[idx] = ITE(c, xa, xb)
+                m.selfupd = set(getattr(va, "selfupd", ())) | set(getattr(vb, "selfupd", ()))
+                done[(id(va), id(vb))] = m
                 out[k] = m
             elif va is None or vb is None:
                 out[k] = va if vb is None else vb        # defined on one arm only
-            elif callable(va) or isinstance(va, (tuple, list)):
+            elif va is vb:
                 out[k] = va
-            else:
+            elif isinstance(va, sp.Basic) and isinstance(vb, sp.Basic):
                 out[k] = ITE(c, va, vb) if va != vb else va
+            elif isinstance(va, (tuple, list)) and isinstance(vb, (tuple, list)) and len(va) == len(vb) \
+                    and all(isinstance(x, sp.Basic) for x in list(va) + list(vb)):
+                out[k] = tuple(ITE(c, x, y) if x != y else x for x, y in zip(va, vb))
+            elif isinstance(va, Vec) and isinstance(vb, Vec):
+                out[k] = lift(lambda x, y, c=c: ITE(c, x, y), va, vb, what="conditional whole-array value")
+            else:
+                # AUDIT: functions, tuples of other things, a scalar against an array: which one is bound depends on the condition
+                out[k] = Poison("bound to different kinds of values on the two arms of a conditional")
         self.env = out
+
+    # ------------------------------------------------------------ loops
+    def _range_bounds(self, it, st):
+        """AUDIT: range(n), range(a, b), range(a, b, 1) visit lo .. hi-1; range(a, b, -1) visits the SAME counters as
+        range(b + 1, a + 1) in the opposite order - the execution below treats the iterations as an unordered set (point-wise stores
+        and additive accumulations; everything carried from one iteration to the next is refused), so the order is immaterial.
+        Any other step, keyword or star-expanded arguments: Undecided."""
+        if it.keywords or any(isinstance(a, ast.Starred) for a in it.args) or not (1 <= len(it.args) <= 3):
+            raise Undecided(f"`{src(it)[:40]}`: arguments of the range")
+        args = [self.ev(a) for a in it.args]
+        if not all(_is_scalar(a) for a in args):
+            raise Undecided(f"`{src(it)[:40]}`: bounds of the range are not scalars")
+        if len(args) == 1:
+            return Integer(0), args[0]
+        if len(args) == 2:
+            return args[0], args[1]
+        step = args[2]
+        if step == 1:
+            return args[0], args[1]
+        if step == -1:
+            return args[1] + 1, args[0] + 1
+        raise Undecided(f"`{src(it)[:40]}`: a range with a step")
+
+    def _iter_elems(self, node, v, st):
+        """value of the element number v of an iterable in a loop header, and its length (None: not known)"""
+        if isinstance(node, ast.Call) and isinstance(node.func, ast.Name) and node.func.id == "zip" and node.func.id not in self.env:
+            if node.keywords or not node.args or any(isinstance(a, ast.Starred) for a in node.args):
+                raise Undecided(f"loop over `{src(node)[:40]}`")
+            parts = [self._iter_elems(a, v, st) for a in node.args]
+            lens = [n for _, n in parts]
+            # AUDIT: zip stops at the SHORTEST operand: the common length is known only when all lengths are the same expression
+            if any(n is None for n in lens) or any(sp.simplify(n - lens[0]) != 0 for n in lens[1:]):
+                raise Undecided(f"loop over `{src(node)[:40]}`: the operands are not known to have the same length")
+            return tuple(x for x, _ in parts), lens[0]
+        arr = self.ev(node)
+        if isinstance(arr, Arr):
+            rank = getattr(arr, "rank", None)
+            if rank not in (None, 1):
+                raise Undecided(f"loop over the rows of `{src(node)[:40]}`")
+            return arr.read([v]), arr.dim(0)
+        if isinstance(arr, Vec) and arr.rank == 1:
+            return arr.f((v,)), None
+        raise Undecided(f"loop over `{src(node)[:40]}`")
+
+    def _bind_target(self, t, val, names):
+        if isinstance(t, ast.Name):
+            self.env[t.id] = val
+            names.add(t.id)
+            return
+        if isinstance(t, (ast.Tuple, ast.List)) and isinstance(val, tuple) and len(val) == len(t.elts) \
+                and not any(isinstance(x, ast.Starred) for x in t.elts):
+            for x, y in zip(t.elts, val):
+                self._bind_target(x, y, names)
+            return
+        raise Undecided("loop target")
 
     def loop(self, st: ast.For):
         it = st.iter
         # range(n) / range(a, b) / enumerate(arr)
-        if isinstance(it, ast.Call) and isinstance(it.func, ast.Name) and it.func.id == "range":
-            args = [self.ev(a) for a in it.args]
-            lo, hi = (Integer(0), args[0]) if len(args) == 1 else (args[0], args[1])
+        if isinstance(it, ast.Call) and isinstance(it.func, ast.Name) and it.func.id in ("range", "prange") and it.func.id not in self.env:
+            lo, hi = self._range_bounds(it, st)
             if not isinstance(st.target, ast.Name):
                 raise Undecided("loop target")
             v = Symbol(st.target.id, integer=True)
             self.env[st.target.id] = v
             self.body_once(st, v, lo, hi, {st.target.id})
             return
-        if isinstance(it, ast.Call) and isinstance(it.func, ast.Name) and it.func.id == "enumerate":
-            arr = self.ev(it.args[0])
-            if not isinstance(arr, Arr) or not isinstance(st.target, ast.Tuple):
+        if isinstance(it, ast.Call) and isinstance(it.func, ast.Name) and it.func.id == "enumerate" and "enumerate" not in self.env:
+            if not it.args or len(it.args) > 2 or any(isinstance(a, ast.Starred) for a in it.args) \
+                    or any(k.arg != "start" for k in it.keywords) or (len(it.args) == 2 and it.keywords):
+                raise Undecided(f"loop over `{src(it)[:40]}`")
+            start_node = it.args[1] if len(it.args) == 2 else (it.keywords[0].value if it.keywords else None)
+            start = self.ev(start_node) if start_node is not None else Integer(0)
+            if not _is_scalar(start) or not isinstance(st.target, ast.Tuple) or len(st.target.elts) != 2 \
+                    or not isinstance(st.target.elts[0], ast.Name):
                 raise Undecided("enumerate over non-array")
             iv, xv = st.target.elts
-            v = Symbol(iv.id, integer=True)
+            v = Symbol(iv.id, integer=True)            # the COUNTER (starts at `start`)
+            elem, n = self._iter_elems(it.args[0], v - start, st)
+            if n is None:
+                raise Undecided("enumerate over a value of unknown length")
+            names = {iv.id}
             self.env[iv.id] = v
-            self.env[xv.id] = arr.read([v])
-            self.body_once(st, v, Integer(0), getattr(arr, "length", None) or Symbol(f"n0_{arr.name}", integer=True, positive=True),
-                           {iv.id, xv.id})
+            self._bind_target(xv, elem, names)
+            self.body_once(st, v, start, start + n, names)
             return
+        if (isinstance(it, ast.Call) and isinstance(it.func, ast.Name) and it.func.id == "zip") or isinstance(it, (ast.Name, ast.Subscript)):
+            # for x in arr / for x, y in zip(a, b): an index of its own
+            nm = f"_k{st.lineno}"
+            while nm in self.env:
+                nm += "_"
+            v = Symbol(nm, integer=True)
+            elem, n = self._iter_elems(it, v, st)
+            if n is None:
+                raise Undecided(f"loop over `{src(it)[:40]}`: unknown length")
+            names = set()
+            self._bind_target(st.target, elem, names)
+            self.body_once(st, v, Integer(0), n, names)
+            return
+        # AUDIT: any other iterable (np.ndindex, itertools.product, reversed, a list, a generator ...)
         raise Undecided(f"loop over `{src(it)[:40]}`")
 
     def body_once(self, st, v, lo, hi, bound_names=frozenset()):
         """execute the body once with the loop variable symbolic; cells whose key does not
-        involve v and that are updated additively become sums"""
+        involve v and that are updated additively become sums.
+        AUDIT: the iterations are treated as an unordered set.  This is sound when nothing is carried from one iteration to the next
+        except additive accumulators: every scalar the body assigns is replaced on entry by a placeholder C; after the body its
+        value must be C (untouched), C + d with d free of C (an accumulator: old + Sum d), or free of C (re-assigned in every
+        iteration: the value of the last iteration); any other occurrence of C (in the scalar, in another value, in a cell: the
+        scalar was read before it was written in the same iteration) is Undecided."""
+        body = lower_continue(list(st.body))
+        stored, inner_targets = set(), set()
+        for s_ in body:
+            for n_ in ast.walk(s_):
+                if isinstance(n_, ast.Name) and isinstance(n_.ctx, ast.Store):
+                    stored.add(n_.id)
+                if isinstance(n_, ast.For):
+                    inner_targets |= {x.id for x in ast.walk(n_.target) if isinstance(x, ast.Name)}
+        stored -= inner_targets
+        # reads of cells `name[...]` whose subscript does not mention the loop counter (see the cells section)
+        fixed_reads = {n_.value.id for s_ in body for n_ in ast.walk(s_)
+                       if isinstance(n_, ast.Subscript) and isinstance(n_.ctx, ast.Load) and isinstance(n_.value, ast.Name)
+                       and not any(isinstance(x, ast.Name) and x.id in bound_names for x in ast.walk(n_.slice))}
+        carries = {}
+        for k in sorted(stored):
+            if k in bound_names or k == str(v):
+                continue
+            old = self.env.get(k)
+            if isinstance(old, sp.Basic):
+                if _is_bool(old):
+                    C = Symbol(f"_carry{next(_FRESH)}_{k}")
+                else:
+                    C = Symbol(f"_carry{next(_FRESH)}_{k}", integer=True) if old.is_integer else Symbol(f"_carry{next(_FRESH)}_{k}", real=True)
+                carries[k] = (C, old)
+                self.env[k] = C
         before = self.snapshot()
         self.loop_vars.append((v, lo, hi))
         LOOP_BOUNDS.append((v, lo))
         self.all_loop_syms = getattr(self, "all_loop_syms", set()) | {v}
         try:
-            self.block(st.body)
+            self.block(body)
         finally:
             self.loop_vars.pop()
             LOOP_BOUNDS.pop()
+        if self.ret is not None:
+            raise Undecided(f"return inside the loop at line {st.lineno}")
         after = self.env
+        nonempty = sp.Lt(lo, hi)
+        if (hi - lo).is_positive:
+            nonempty = sp.true
+        elif (hi - lo).is_nonpositive:
+            nonempty = sp.false
+
+        def last(expr, old):
+            """value after the loop of something re-assigned (not accumulated) in every iteration"""
+            lastv = safe_subs(expr, {v: hi - 1}) if v in expr.free_symbols else expr
+            return ITE(nonempty, lastv, old)
+        # ---- scalars
+        csyms = {C for C, _ in carries.values()}
+        for k, (C, old) in carries.items():
+            val = after.get(k)
+            if val is C or val == C:
+                after[k] = old
+                continue
+            if not isinstance(val, sp.Basic):
+                raise Undecided(f"`{k}` is a scalar before the loop at line {st.lineno} and another kind of value after it")
+            if C not in val.free_symbols:
+                if val.free_symbols & (csyms - {C}):
+                    raise Undecided(f"`{k}` is computed from a scalar carried through the loop at line {st.lineno}")
+                after[k] = last(val, old)
+                continue
+            if _is_bool(old) or _is_bool(val):
+                raise Undecided(f"flag `{k}` is carried from one iteration to the next (loop at line {st.lineno})")
+            d = _minus_carry(val, C)
+            if d is None or d.free_symbols & csyms:
+                raise Undecided(f"non-additive loop-carried scalar `{k}`")
+            after[k] = old + make_sum(d, v, lo, hi)
+        if csyms:
+            def has_carry(x):
+                return isinstance(x, sp.Basic) and bool(x.free_symbols & csyms)
+            for k, val in after.items():
+                bad = False
+                if isinstance(val, sp.Basic):
+                    bad = has_carry(val)
+                elif isinstance(val, (tuple, list)):
+                    bad = any(has_carry(x) for x in val)
+                elif isinstance(val, Arr):
+                    bad = any(has_carry(x) for key, x in val.cells.items() for x in list(key) + [x])
+                    b = before.get(k)
+                    if not bad and val.generic is not None and (not isinstance(b, Arr) or val.generic is not b.generic):
+                        g = val.generic
+
+                        def checked(ix, g=g, csyms=frozenset(csyms), name=val.name):
+                            r = g(ix)
+                            if isinstance(r, sp.Basic) and r.free_symbols & csyms:
+                                raise Undecided(f"{name} holds a scalar carried from one loop iteration to the next")
+                            return r
+                        val.generic = checked
+                if bad:
+                    raise Undecided(f"a scalar of the loop at line {st.lineno} is read before it is written in the same iteration "
+                                    f"(it reaches `{k}`): carried from one iteration to the next")
+        # ---- cells
+        # AUDIT: a cell written point-wise in this loop (key involves the counter) and the INITIAL content of another cell of the same
+        # array, at a position that also moves with the counter, read in the loop: y[i] = y[i - 1] + x[i] is a recurrence (which
+        # content is read depends on the order of the iterations), not a point-wise formula
+        for k, val in list(after.items()):
+            b = before.get(k)
+            if isinstance(val, Arr) and isinstance(b, Arr) and b.generic is None:
+                keys_v = [idx for idx in val.cells if idx not in b.cells and any(v in i.free_symbols for i in idx)]
+                if not keys_v:
+                    continue
+                exprs = []
+                for val2 in after.values():
+                    if isinstance(val2, sp.Basic):
+                        exprs.append(val2)
+                    elif isinstance(val2, Arr):
+                        for key2, x2 in val2.cells.items():
+                            exprs.extend(list(key2) + [x2])
+                for x2 in exprs:
+                    if not x2.has(val.fn):
+                        continue
+                    for a_ in x2.atoms(AppliedUndef):
+                        if a_.func == val.fn and v in a_.free_symbols and tuple(a_.args) not in keys_v:
+                            raise Undecided(f"`{k}` is written at {list(keys_v[0])} in the loop at line {st.lineno} and its old content at "
+                                            f"{list(a_.args)} is read there: a recurrence, not a point-wise formula")
         for k, val in list(after.items()):
             if isinstance(val, Arr):
                 b = before.get(k)
@@ -587,6 +1278,7 @@ class SymExec:
                     old = b.cells.get(idx) if isinstance(b, Arr) and idx in b.cells else None
                     if old is not None and old == expr:
                         continue
+                    created = old is None
                     if old is None:
                         if v in expr.free_symbols:
                             # accumulation onto the cell's initial content (never initialised in this function)
@@ -596,22 +1288,28 @@ class SymExec:
                                 raise Undecided(f"cell {k}{list(idx)} written in a loop over {v} without being indexed by it")
                         else:
                             continue
-                    d = sp.expand(expr - old)
+                    if old.is_number and idx not in getattr(val, "selfupd", ()):
+                        # AUDIT: with a NUMBER as the old content `expr - old` cannot tell `c = c + x` from `c = x`; the store was
+                        # not written as an update of the cell itself: a plain store, the last iteration's value stays - unless
+                        # the body reads cells of this array at positions fixed over the loop (the old content may reach the
+                        # store through a local)
+                        aliases = {n2 for n2, v2 in after.items() if v2 is val}
+                        if aliases & fixed_reads:
+                            raise Undecided(f"cell {k}{list(idx)} is stored in the loop at line {st.lineno} and cells of `{k}` at fixed "
+                                            "positions are read there: accumulation or plain store is not told apart")
+                        val.cells[idx] = last(expr, old)
+                        continue
+                    # the increment, with the subtraction pushed into the arms of conditionals (an update under a test)
+                    d = _minus_ite(expr, old)
                     if old.free_symbols & d.free_symbols and _depends_on_expr(d, old):
                         raise Undecided(f"non-additive accumulation into {k}{list(idx)}")
-                    val.cells[idx] = old + sp.Sum(d, (v, lo, hi - 1))
-            elif isinstance(val, sp.Basic) and k in before and isinstance(before[k], sp.Basic):
-                old = before[k]
-                if old != val and k != str(v) and k not in bound_names:
-                    d = sp.expand(val - old)
-                    if v in d.free_symbols or True:
-                        if _depends_on_expr(d, old) and old != 0:
-                            raise Undecided(f"non-additive loop-carried scalar `{k}`")
-                        after[k] = old + sp.Sum(d, (v, lo, hi - 1))
+                    val.cells[idx] = old + make_sum(d, v, lo, hi)
 
     def generalise(self):
         """after an outermost loop: an array whose only written cell is keyed by distinct loop
-        symbols is written point-wise over its whole extent -> make that cell the generic one"""
+        symbols is written point-wise over its whole extent -> make that cell the generic one.
+        AUDIT: 'its whole extent' is an assumption about the loop bounds (callers compare the generic cell with a specification of
+        the cells the loops visit); the ranges are kept in `gen_domain` for callers that need them."""
         if self.loop_vars:
             return
         syms = getattr(self, "all_loop_syms", set())
@@ -622,19 +1320,25 @@ class SymExec:
                     keys = tuple(idx)
 
                     def gen(ix, expr=expr, keys=keys):
-                        return expr.subs(dict(zip(keys, ix)), simultaneous=True)
+                        return safe_subs(expr, dict(zip(keys, ix)))
                     val.generic = gen
                     val.cells = {}
+                    getattr(val, "selfupd", set()).clear()
 
     def while_(self, st: ast.While):
         # idiom: while v < bound: v += step   /   while v > bound: v -= step
+        # AUDIT: conditions of the form `a and b`, bodies of several statements, a bound or step that involves v: not this idiom
         if len(st.body) == 1 and isinstance(st.body[0], ast.AugAssign) and isinstance(st.body[0].target, ast.Name) \
                 and isinstance(st.test, ast.Compare) and len(st.test.ops) == 1 and isinstance(st.test.left, ast.Name) \
-                and st.test.left.id == st.body[0].target.id:
+                and st.test.left.id == st.body[0].target.id and isinstance(st.body[0].op, (ast.Add, ast.Sub)):
             name = st.test.left.id
             v = self.ev(st.test.left)
             bound = self.ev(st.test.comparators[0])
             step = self.ev(st.body[0].value)
+            if not (_is_scalar(v) and _is_scalar(bound) and _is_scalar(step)):
+                raise Undecided("while loop on values that are not scalars")
+            if any(isinstance(n_, ast.Name) and n_.id == name for x in (st.test.comparators[0], st.body[0].value) for n_ in ast.walk(x)):
+                raise Undecided(f"while loop `{src(st.test)[:40]}`: the bound or the step depends on the shifted variable")
             if isinstance(st.body[0].op, ast.Sub):
                 step = -step
             kind = {ast.Lt: 1, ast.LtE: 2, ast.Gt: 3, ast.GtE: 4}.get(type(st.test.ops[0]))
@@ -652,12 +1356,98 @@ def _depends_on_expr(d, old):
     return d.has(old) if not old.is_Add else False
 
 
+def _minus_ite(val, old):
+    """val - old, pushed into the arms of conditionals whose condition does not involve `old`"""
+    if isinstance(val, ITE) and not _is_bool(val.args[1]) and not _is_bool(val.args[2]) and (old.is_number or not val.args[0].has(old)):
+        return ITE(val.args[0], _minus_ite(val.args[1], old), _minus_ite(val.args[2], old))
+    return sp.expand(val - old)
+
+
+def _minus_carry(val, C):
+    """val - C with the subtraction pushed into the arms of conditionals; None when C remains"""
+    if isinstance(val, ITE) and not (val.args[0].free_symbols & C.free_symbols if isinstance(C, sp.Basic) else False):
+        a, b = _minus_carry(val.args[1], C), _minus_carry(val.args[2], C)
+        if a is None or b is None:
+            return None
+        return ITE(val.args[0], a, b)
+    if _is_bool(val):
+        return None
+    d = sp.expand(val - C)
+    if isinstance(C, Symbol) and C in d.free_symbols:
+        return None
+    return d
+
+
+def _has_continue(stmts):
+    """a `continue` that belongs to the loop whose body `stmts` is part of"""
+    for s_ in stmts:
+        if isinstance(s_, ast.Continue):
+            return True
+        if isinstance(s_, ast.If) and (_has_continue(s_.body) or _has_continue(s_.orelse)):
+            return True
+        if isinstance(s_, (ast.With, ast.Try)) and any(isinstance(n_, ast.Continue) for n_ in ast.walk(s_)):
+            return True
+    return False
+
+
+def lower_continue(stmts):
+    """`continue` written out: `if c: A; continue` followed by REST is `if c: A else: REST`.
+    AUDIT: exact for `continue` under if/else chains of the loop body; under with / try: Undecided."""
+    if not _has_continue(stmts):
+        return stmts
+    out = []
+    for k, s_ in enumerate(stmts):
+        if isinstance(s_, ast.Continue):
+            return out
+        if isinstance(s_, ast.If) and (_has_continue(s_.body) or _has_continue(s_.orelse)):
+            rest = stmts[k + 1:]
+            body = lower_continue(list(s_.body) + (rest if not _ends_with_continue(s_.body) else []))
+            orelse = lower_continue(list(s_.orelse) + (rest if not _ends_with_continue(s_.orelse) else []))
+            new = ast.If(test=s_.test, body=body or [ast.Pass()], orelse=orelse)
+            ast.copy_location(new, s_)
+            ast.fix_missing_locations(new)
+            out.append(new)
+            return out
+        if isinstance(s_, (ast.With, ast.Try)) and any(isinstance(n_, ast.Continue) for n_ in ast.walk(s_)):
+            raise Undecided(f"`continue` inside a with / try block at line {s_.lineno}")
+        out.append(s_)
+    return out
+
+
+def _ends_with_continue(stmts):
+    return bool(stmts) and isinstance(stmts[-1], ast.Continue)
+
+
 # --------------------------------------------------------------------------
 # comparison
 # --------------------------------------------------------------------------
 
+def _boolean_ite(x):
+    """a conditional whose arms are truth values (a flag assigned on the arms of an if)"""
+    if not isinstance(x, ITE):
+        return False
+    return all(_is_bool(a) or isinstance(a, Symbol) and not (a.is_real or a.is_integer) or _boolean_ite(a) for a in x.args[1:]) \
+        and any(_is_bool(a) or _boolean_ite(a) for a in x.args[1:])
+
+
+def _canon_diff(d):
+    """one representative of {c * d : c > 0}: the primitive part (e < 0 and 2 e < 0 are one atom)"""
+    d = sp.expand(d)
+    try:
+        c, p = d.as_content_primitive()
+        if c.is_positive and c != 1:
+            d = sp.expand(p)
+    except Exception:          # noqa: BLE001 - left as it is
+        pass
+    return d
+
+
 def canon_rel(r):
-    """canonicalise a relational to ('lt'|'le'|'eq', canonical expr, negated?)"""
+    """canonicalise a relational to ('lt'|'le'|'eq', canonical expr, negated?)
+    AUDIT: e < 0, 2 e < 0, -e > 0, not (-e <= 0) are ONE atom (the difference is reduced to its primitive part and to one sign),
+    so that `consistent` relates them.  ('atom', r, False) is a FREE truth value: only for a Symbol (a flag) or the application of
+    an uninterpreted function (a truth value read from an array, the same wherever it occurs).  A conditional with Boolean arms is
+    not free (expanded by bool_atoms / bool_eval); anything else is Undecided."""
     if isinstance(r, sp.Not):
         k, c, n = canon_rel(r.args[0])
         return k, c, not n
@@ -670,18 +1460,20 @@ def canon_rel(r):
     elif isinstance(r, (sp.Ge, sp.GreaterThan)):
         a, b, kind = r.rhs, r.lhs, "le"
     elif isinstance(r, sp.Eq):
-        d = sp.expand(r.lhs - r.rhs)
+        d = _canon_diff(r.lhs - r.rhs)
         if str(-d) < str(d):
             d = -d
         return "eq", d, False
     elif isinstance(r, sp.Ne):
-        d = sp.expand(r.lhs - r.rhs)
+        d = _canon_diff(r.lhs - r.rhs)
         if str(-d) < str(d):
             d = -d
         return "eq", d, True
-    else:
+    elif isinstance(r, Symbol) or isinstance(r, AppliedUndef) or r in (sp.true, sp.false):
         return "atom", r, False
-    d = sp.expand(a - b)      # a < b  <=>  d < 0
+    else:
+        raise Undecided(f"condition `{str(r)[:80]}` is not a comparison, a flag or a combination of them")
+    d = _canon_diff(a - b)      # a < b  <=>  d < 0
     nd = sp.expand(-d)
     if str(nd) < str(d):
         # d < 0 <=> nd > 0 <=> not (nd <= 0) ; d <= 0 <=> nd >= 0 <=> not (nd < 0)
@@ -690,13 +1482,17 @@ def canon_rel(r):
 
 
 def bool_atoms(c, acc):
-    if isinstance(c, (sp.And, sp.Or)):
+    if isinstance(c, (sp.And, sp.Or, sp.Not)) and not (isinstance(c, sp.Not) and not isinstance(c.args[0], (sp.And, sp.Or, sp.Not, ITE))):
         for a in c.args:
             bool_atoms(a, acc)
-    elif isinstance(c, sp.Not) and isinstance(c.args[0], (sp.And, sp.Or)):
-        bool_atoms(c.args[0], acc)
     elif c in (sp.true, sp.false):
         pass
+    elif isinstance(c, ITE):
+        # a truth value chosen by a condition: (c and p) or (not c and q)
+        for a in c.args:
+            bool_atoms(a, acc)
+    elif isinstance(c, BooleanFunction) and not isinstance(c, sp.Not):
+        raise Undecided(f"condition `{str(c)[:80]}`")
     else:
         k, e, n = canon_rel(c)
         acc.add((k, e))
@@ -711,8 +1507,12 @@ def bool_eval(c, val):
         return all(bool_eval(a, val) for a in c.args)
     if isinstance(c, sp.Or):
         return any(bool_eval(a, val) for a in c.args)
-    if isinstance(c, sp.Not) and isinstance(c.args[0], (sp.And, sp.Or)):
+    if isinstance(c, sp.Not) and isinstance(c.args[0], (sp.And, sp.Or, sp.Not, ITE)):
         return not bool_eval(c.args[0], val)
+    if isinstance(c, ITE):
+        return bool_eval(c.args[1], val) if bool_eval(c.args[0], val) else bool_eval(c.args[2], val)
+    if isinstance(c, BooleanFunction) and not isinstance(c, sp.Not):
+        raise Undecided(f"condition `{str(c)[:80]}`")
     k, e, n = canon_rel(c)
     v = val[(k, e)]
     return (not v) if n else v
@@ -737,8 +1537,12 @@ def _ws_bounds(W):
 
 
 def _forced(k, e):
-    """truth value of the atom `e <k> 0` forced by the exit conditions of shift loops, or None"""
-    if k not in ("lt", "le"):
+    """truth value of the atom `e <k> 0` forced by the exit conditions of shift loops (or by e being a number), or None"""
+    if k not in ("lt", "le", "eq"):
+        return None
+    if isinstance(e, sp.Basic) and e.is_number and e.is_comparable:
+        return bool(e < 0) if k == "lt" else bool(e <= 0) if k == "le" else bool(e == 0)
+    if k == "eq":
         return None
     for W in e.atoms(WhileShift):
         lo, hi = _ws_bounds(W)
@@ -758,7 +1562,9 @@ def _forced(k, e):
 
 
 def consistent(val):
-    """(e<0) implies (e<=0); (e==0) implies (e<=0) and not (e<0); exit conditions of shift loops"""
+    """(e<0) implies (e<=0); (e==0) implies (e<=0) and not (e<0); exit conditions of shift loops.
+    AUDIT: the atoms come from canon_rel, which has already identified scaled and negated forms (e < 0 / -e <= 0 / 2e < 0 are one
+    key); here also e and -e under different keys (an `eq` whose sign was chosen independently)."""
     for (k, e), v in val.items():
         f = _forced(k, e)
         if f is not None and f != v:
@@ -771,6 +1577,20 @@ def consistent(val):
             return False
         if d.get("eq") and (d.get("lt") or d.get("le") is False):
             return False
+        if d.get("eq") is False and d.get("lt") is False and d.get("le") is True:
+            return False               # e <= 0, not e < 0, but e != 0
+        ne = sp.expand(-e) if isinstance(e, sp.Basic) and not isinstance(e, (Symbol,)) and not _is_bool(e) else None
+        dn = by.get(ne) if ne is not None and ne != e else None
+        if dn:
+            # -e under a key of its own: e < 0 and -e < 0 cannot both hold; e <= 0 and -e <= 0 force e == 0
+            if d.get("lt") and (dn.get("lt") or dn.get("le")):
+                return False
+            if d.get("le") is False and dn.get("le") is False:
+                return False
+            if d.get("eq") is not None and dn.get("eq") is not None and d.get("eq") != dn.get("eq"):
+                return False
+            if d.get("eq") and (dn.get("lt") or dn.get("le") is False):
+                return False
     return True
 
 
@@ -797,43 +1617,150 @@ def _split_sums(e):
     e = sp.expand(e)
     rest = 0
     sums = {}
+
+    def canon(s_):
+        # the NAME of a summation variable is immaterial: one name per nesting position
+        ren = {lim[0]: Symbol(f"_sd{k}", integer=True) for k, lim in enumerate(s_.limits)
+               if not str(lim[0]).startswith("_sd")}
+        if not ren or any(Symbol(f"_sd{k}", integer=True) in s_.free_symbols for k in range(len(s_.limits))):
+            return s_.limits, s_.function
+        lims = tuple((ren.get(lim[0], lim[0]),) + tuple(b.xreplace(ren) for b in lim[1:]) for lim in s_.limits)
+        return lims, _rename_bound(s_.function, set(ren.values())).xreplace(ren)
     for t in sp.Add.make_args(e):
         c, s_ = t.as_coeff_Mul()
         if isinstance(s_, sp.Sum):
-            sums[s_.limits] = sums.get(s_.limits, 0) + c * s_.function
+            lims, f_ = canon(s_)
+            sums[lims] = sums.get(lims, 0) + c * f_
         elif isinstance(t, sp.Sum):
-            sums[t.limits] = sums.get(t.limits, 0) + t.function
+            lims, f_ = canon(t)
+            sums[lims] = sums.get(lims, 0) + f_
         else:
             rest += t
     return rest, sums
 
 
+# operators whose sympy normal form is weak: two notations of one value are not recognised as equal (max(a, b) against a
+# conditional, a % b against a - b floor(a / b), int() against floor) - a non-zero difference that contains them proves nothing
+_WEAK_PAIRS = (({"mod"}, {"floor", "ceiling", "toint", "fmod", "trunc"}), ({"toint"}, {"floor", "ceiling", "trunc"}),
+               ({"fmod"}, {"floor", "ceiling", "trunc", "Wrap"}), ({"Max", "Min", "Abs", "sign"}, {"ITE", "Piecewise", "Max", "Min", "Abs"}),
+               ({"Wrap"}, {"mod", "floor"}))
+
+
+def _heads(e):
+    out = set()
+    for a in sp.preorder_traversal(e):
+        if isinstance(a, (sp.Function, sp.Max, sp.Min, sp.Abs, sp.Piecewise)) or isinstance(a, AppliedUndef):
+            out.add(type(a).__name__ if not isinstance(a, AppliedUndef) else str(a.func))
+    return out
+
+
+def _writeout_differs(a, b):
+    """the two sides with the symbolic limits of their sums set to small integers and every sum written out: True when they DIFFER
+    as polynomials at one of the instances (a proof of difference: the instance is an admissible degree), False when they agree at
+    every instance tried, None when a sum cannot be written out"""
+    syms = set()
+    for s_ in list(a.atoms(sp.Sum)) + list(b.atoms(sp.Sum)):
+        for lim in s_.limits:
+            for bnd in lim[1:]:
+                syms |= bnd.free_symbols
+    bound = _bound_vars(a) | _bound_vars(b)
+    syms = sorted((s_ for s_ in syms - bound if s_.is_integer is not False), key=str)
+    if len(syms) > 3:
+        return None
+    tried = 0
+    for vals in ([1], [2], [3]) if len(syms) <= 1 else itertools.islice(itertools.product([1, 2, 3], repeat=len(syms)), 9):
+        sub = dict(zip(syms, [Integer(x) for x in vals]))
+        try:
+            x, y = a.subs(sub), b.subs(sub)
+            for _k in range(4):
+                if not (x.has(sp.Sum) or y.has(sp.Sum)):
+                    break
+                x, y = x.doit(), y.doit()
+            if x.has(sp.Sum) or y.has(sp.Sum):
+                return None
+            if x.has(sp.nan, sp.zoo, sp.oo) or y.has(sp.nan, sp.zoo, sp.oo):
+                continue
+            n = sp.expand(sp.fraction(sp.together(x - y))[0])
+            tried += 1
+            if n != 0 and sp.simplify(n) != 0:
+                return True
+        except Exception:      # noqa: BLE001
+            return None
+    return False if tried else None
+
+
 def alg_equal(a, b):
     """polynomial identity after cross-multiplication (atoms: symbols and function applications);
-    sums over the same range are compared summand-wise"""
+    sums over the same range are compared summand-wise.
+    THREE-VALUED: True = equal (proved); False = different (the cross-multiplied difference is a non-zero polynomial in independent
+    atoms); None = not decided.  `not alg_equal(..)` keeps its old meaning "not shown equal".
+    AUDIT of False: (1) with sums, a summand-wise difference may be a different ARRANGEMENT of the same sum (split range, shifted
+    index, exchanged order): False only when the two sides written out at fixed small limits differ; (2) a difference that
+    contains two notations of one operator (see _WEAK_PAIRS) proves nothing: None."""
     if a == b:
         return True
-    if (getattr(a, "has", None) and a.has(sp.Sum)) or (getattr(b, "has", None) and b.has(sp.Sum)):
+    if not (isinstance(a, sp.Basic) and isinstance(b, sp.Basic)):
+        try:
+            a, b = sp.sympify(a), sp.sympify(b)
+        except Exception:      # noqa: BLE001
+            return None
+    if _is_bool(a) or _is_bool(b):
+        return None
+    has_sum = a.has(sp.Sum) or b.has(sp.Sum)
+    if has_sum:
         ra, sa = _split_sums(a)
         rb, sb = _split_sums(b)
         if sa or sb:
-            if set(sa) != set(sb):
+            verdict = None
+            if set(sa) == set(sb):
+                parts = [alg_equal(ra, rb)] + [alg_equal(sa[k], sb[k]) for k in sa]
+                if all(p is True for p in parts):
+                    return True
+            w = _writeout_differs(a, b)
+            if w is True:
                 return False
-            return alg_equal(ra, rb) and all(alg_equal(sa[k], sb[k]) for k in sa)
+            return verdict
         # sums only occur inside products/functions: treat them as atoms below
-    d = sp.together(a - b)
-    n, _ = sp.fraction(d)
-    n = sp.expand(n)
+    try:
+        d = sp.together(a - b)
+        n, _ = sp.fraction(d)
+        n = sp.expand(n)
+    except Exception:          # noqa: BLE001
+        return None
     if n == 0:
         return True
     try:
-        return sp.simplify(n) == 0
-    except Exception:
-        return False
+        if sp.simplify(n) == 0:
+            return True
+    except Exception:          # noqa: BLE001
+        return None
+    if has_sum:
+        w = _writeout_differs(a, b)
+        return False if w is True else None
+    if n.has(sp.tanh, sp.sinh, sp.cosh, sp.coth, sp.tan, sp.cot, sp.sec, sp.csc):
+        # two notations of one elementary function (tanh against exponentials, tan against sin / cos)
+        try:
+            for form in (sp.exp, sp.cos):
+                if sp.simplify(n.rewrite(form)) == 0:
+                    return True
+        except Exception:      # noqa: BLE001
+            return None
+    hs = _heads(n)
+    for p, q in _WEAK_PAIRS:
+        hp = hs & p
+        if hp and (hs - hp) & q or len(hs & p & q) > 1:
+            return None
+    if n.has(sp.nan) or n.has(sp.zoo):
+        return None
+    return False
 
 
 def sym_equal(a, b, max_atoms=10):
-    """equality of two extracted expressions, conditionals by truth table -> (bool, witness)"""
+    """equality of two extracted expressions, conditionals by truth table -> (bool, witness)
+    AUDIT of (False, witness): the witness is a truth assignment to the atomic conditions; it is a real case only when the atoms
+    are independent up to what `consistent` knows.  Comparisons and flags are; a truth value read from a call / an array
+    ('atom' that is not a Symbol) may be correlated with the others: a difference found with such atoms present is Undecided.
+    A case in which the algebraic comparison does not decide makes the whole comparison Undecided (unless another case differs)."""
     atoms = set()
     ites = []
     collect_ites(a, ites)
@@ -844,23 +1771,47 @@ def sym_equal(a, b, max_atoms=10):
     if len(atoms) > max_atoms:
         raise Undecided(f"{len(atoms)} atomic conditions")
     if not atoms:
-        return alg_equal(a, b), None
+        r = alg_equal(a, b)
+        if r is None:
+            raise Undecided("the algebraic comparison does not decide")
+        return r, None
+    opaque = [e_ for k_, e_ in atoms if k_ == "atom" and not isinstance(e_, Symbol)]
+    open_case = None
     for bits in itertools.product([False, True], repeat=len(atoms)):
         val = dict(zip(atoms, bits))
         if not consistent(val):
             continue
         ra, rb = resolve_ite(a, val), resolve_ite(b, val)
-        if not alg_equal(ra, rb):
+        r = alg_equal(ra, rb)
+        if r is None:
+            open_case = val
+            continue
+        if not r:
+            if opaque:
+                raise Undecided(f"condition `{str(opaque[0])[:80]}` is outside the comparisons the case split understands")
             w = {f"{k}:{e}": v for (k, e), v in val.items()}
             return False, {"case": w, "code": str(ra)[:300], "spec": str(rb)[:300]}
+    if open_case is not None:
+        raise Undecided("the algebraic comparison does not decide one of the cases")
     return True, None
 
 
 ANNOTATION_SOURCE: dict = {}     # function name -> reference FunctionDef whose annotations type un-annotated copies
 
 
+def _ann_rank(ann):
+    """'float[:,:]' -> 2, 'Final[float[:]]' -> 1; None when the annotation does not show the rank"""
+    m_ = re.search(r"\[([:,\s]*:[:,\s]*)\]", ann)
+    if m_:
+        return m_.group(1).count(":")
+    return None
+
+
 def make_args(fn: ast.FunctionDef, arrays=(), funcs=None, scalars_real=True, overrides=None):
-    """default symbolic bindings for the parameters of a kernel function"""
+    """default symbolic bindings for the parameters of a kernel function
+    AUDIT: a parameter is an array when its annotation has a subscript (pyccel style 'float[:,:]'; the rank is read from it), an
+    integer / flag when annotated int / bool, a real otherwise.  *args / **kwargs / keyword-only parameters are not bound (reading
+    them is `unknown name`: Undecided)."""
     args = {}
     funcs = funcs or {}
     overrides = overrides or {}
@@ -876,7 +1827,7 @@ def make_args(fn: ast.FunctionDef, arrays=(), funcs=None, scalars_real=True, ove
         if n in funcs:
             args[n] = funcs[n]
         elif n in arrays or "[" in ann:
-            args[n] = Arr(n)
+            args[n] = Arr(n, rank=_ann_rank(ann) if "[" in ann else None)
         elif "int" in ann or "bool" in ann:
             args[n] = Symbol(n, integer=True)
         else:
